@@ -282,6 +282,14 @@ def live_node_name(key):
         and isinstance(key.key[1].key[1].key[2], Sym) and key.key[1].key[1].key[2].key[0] == "elem"
 
 
+def element_of_registry(key):
+    """the loop element of `for k in self._g.attrs[<name registry>]` (its .keys() / list(..) too): present by construction"""
+    if isinstance(key, Sym) and key.key[0] == "elem":
+        txt = show_value(key)
+        return any(txt in ("elem(self._g.attrs['%s'])" % r, "elem(self._g.attrs['%s'].keys())" % r, "elem(list(self._g.attrs['%s']))" % r, "elem(list(self._g.attrs['%s'].keys()))" % r) for r in LOCKSTEP)
+    return False
+
+
 def c15_effect_order(model, rep, r):
     rel = model.rel("system")
     n = 0
@@ -309,6 +317,15 @@ def c15_effect_order(model, rep, r):
                     rep.violation("R1", "system.System.%s" % mname, "%s:%d" % (rel, e[1]),
                                   "issues a warning at line %d after the system was already modified (%s): with warnings turned into errors the call raises and leaves a half-applied edit" % (
                                       e[1], describe_effect(eff)), "warn after effect: " + describe_effect(eff))
+            # implicit KeyError: a registry entry read after a modification with a key nothing on the path shows to be present
+            for i, e in enumerate(lf.events):
+                if e[0] == "load" and k is not None and k < i and e[1] in LOCKSTEP:
+                    if (e[1], vkey(e[2])) in key_facts(lf, i) or live_node_name(e[2]) or element_of_registry(e[2]):
+                        continue
+                    ok = False
+                    rep.violation("R1", "system.System.%s" % mname, "%s:%d" % (rel, e[3]),
+                                  "registry '%s' is read with key %s after the system was modified, but nothing on this path establishes that the key is present (a KeyError here leaves a half-applied edit)" % (e[1], show_value(e[2])),
+                                  "unguarded read %s[%s]" % (e[1], show_value(e[2])))
             # implicit KeyError: registry deletion with a key that is not known to be present, after a modification
             for i, e in enumerate(lf.events):
                 if e[0] == "del":
